@@ -197,10 +197,45 @@ type c05A struct {
 	v    *big.Int
 }
 
+// c05SparseV6: an IPv6 address with few non-zero groups, so that its text is a
+// compressed form with few colons ("::1", "fe80::1", "1::", "fd00::10", "2001:db8::5")
+func c05SparseV6(r *vfRand) *big.Int {
+	v := new(big.Int)
+	his := []uint64{0, 0, 1, 0xfe80, 0xfd00, 0x2001, 0x2a00, 0x64, 0xff02}
+	v.SetUint64(his[r.Intn(len(his))])
+	v.Lsh(v, 112)
+	if r.Chance(1, 4) { // a second group
+		g := new(big.Int).SetUint64(uint64(r.PickInt(0xdb8, 1, 0xff9b, r.Intn(0x10000))))
+		v.Or(v, g.Lsh(g, 96))
+	}
+	if r.Chance(1, 5) { // something in the middle
+		g := new(big.Int).SetUint64(uint64(1 + r.Intn(0xffff)))
+		v.Or(v, g.Lsh(g, uint(16*r.Range(1, 5))))
+	}
+	switch r.Intn(4) {
+	case 0: // nothing in the low group: "fe80::", "1::", "::"
+	case 1:
+		v.Or(v, big.NewInt(1))
+	case 2:
+		v.Or(v, big.NewInt(int64(r.PickInt(2, 0x10, 0xff, 0x100, 0xffff))))
+	default:
+		v.Or(v, big.NewInt(int64(r.Intn(0x10000))))
+	}
+	if new(big.Int).Rsh(v, 32).Cmp(big.NewInt(0xffff)) == 0 {
+		v.SetBit(v, 127, 1) // never an IPv4-mapped value by accident
+	}
+	return v
+}
+
 func c05RandAddr(r *vfRand, bits int) c05A {
 	v := new(big.Int)
-	switch r.Intn(8) {
-	case 0: // all zero
+	k := r.Intn(8)
+	if bits == 128 && k >= 2 && k <= 4 {
+		v = c05SparseV6(r)
+		k = 0
+	}
+	switch k {
+	case 0: // all zero (or the sparse value chosen above)
 	case 1: // all ones
 		v.Sub(new(big.Int).Lsh(big.NewInt(1), uint(bits)), big.NewInt(1))
 	default:
@@ -232,6 +267,56 @@ func (a c05A) ip() net.IP {
 }
 
 func (a c05A) String() string { return a.ip().String() }
+
+// c05Text: one of the textual forms Go's parser accepts for the address: canonical
+// (compressed "::"), fully expanded, groups without compression, upper case, and an
+// IPv4 dotted tail. IPv4 has the dotted form only.
+func c05Text(r *vfRand, a c05A) string {
+	if a.bits == 32 {
+		return a.String()
+	}
+	ip := a.ip()
+	g := make([]uint64, 8)
+	for i := range g {
+		g[i] = uint64(ip[2*i])<<8 | uint64(ip[2*i+1])
+	}
+	mappedLike := true // upper 80 bits zero and group 5 = ffff: text would be an IPv4-mapped literal
+	for i := 0; i < 5; i++ {
+		mappedLike = mappedLike && g[i] == 0
+	}
+	mappedLike = mappedLike && g[5] == 0xffff
+	if mappedLike {
+		return a.String() // Go prints it as dotted IPv4; mapped literals belong to the exotic stream only
+	}
+	var t string
+	switch r.Intn(8) {
+	case 0: // full form
+		t = fmt.Sprintf("%04x:%04x:%04x:%04x:%04x:%04x:%04x:%04x", g[0], g[1], g[2], g[3], g[4], g[5], g[6], g[7])
+	case 1: // no compression, no leading zeros
+		t = fmt.Sprintf("%x:%x:%x:%x:%x:%x:%x:%x", g[0], g[1], g[2], g[3], g[4], g[5], g[6], g[7])
+	case 2: // upper case canonical
+		t = strings.ToUpper(a.String())
+	case 3: // IPv4 dotted tail after the canonical head
+		head := c05A{128, new(big.Int).Lsh(new(big.Int).Rsh(a.v, 32), 32)}.String() // low 32 bits cleared
+		tail := fmt.Sprintf("%d.%d.%d.%d", ip[12], ip[13], ip[14], ip[15])
+		switch {
+		case strings.HasSuffix(head, "::"):
+			t = head + tail
+		case strings.Contains(head, "::"):
+			// the compressed run is elsewhere: the head ends with explicit zero groups ":0:0"
+			t = a.String()
+		default:
+			t = strings.TrimSuffix(head, ":0:0") + ":" + tail
+		}
+	default:
+		t = a.String()
+	}
+	// keep only forms the real parser reads back as the same address
+	if p := net.ParseIP(t); p == nil || !p.Equal(ip) {
+		return a.String()
+	}
+	return t
+}
 
 // mask keeps the first l bits
 func (a c05A) mask(l int) c05A {
@@ -286,13 +371,13 @@ type c05E struct {
 // entry text: CIDR (masked or with host bits left in) or single address
 func c05EntryText(r *vfRand, e c05E) string {
 	if e.l == e.a.bits && r.Chance(2, 3) {
-		return e.a.String()
+		return c05Text(r, e.a)
 	}
 	a := e.a
 	if r.Chance(2, 3) {
 		a = a.mask(e.l)
 	}
-	return fmt.Sprintf("%s/%d", a.String(), e.l)
+	return fmt.Sprintf("%s/%d", c05Text(r, a), e.l)
 }
 
 // boundary clients of an entry
@@ -309,6 +394,18 @@ func c05Boundary(r *vfRand, e c05E) []c05A {
 	}
 	if e.l > 1 {
 		out = append(out, e.a.flip(r.Intn(e.l))) // some prefix bit flipped
+	}
+	if e.l == e.a.bits {
+		// single address: neighbours at several distances (same /64, /32, /16 for IPv6;
+		// same /24, /16, /8 for IPv4), i.e. what a too-short host mask would let in
+		bands := [][2]int{{64, 127}, {32, 63}, {16, 31}, {96, 126}}
+		if e.a.bits == 32 {
+			bands = [][2]int{{24, 30}, {16, 23}, {8, 15}}
+		}
+		for _, b := range bands {
+			out = append(out, e.a.flip(r.Range(b[0], b[1])))
+		}
+		out = append(out, e.a.randHost(r, e.a.bits/4), e.a.randHost(r, e.a.bits/2))
 	}
 	return out
 }
@@ -335,16 +432,25 @@ func c05Gen(r *vfRand, idx int, adv bool) c05In {
 		bits = 128
 	}
 	primaryLen := (idx / 2) % (bits + 1)
+	if idx%7 == 3 {
+		primaryLen = bits // single-address primary entry, text form varies
+	}
 	exotic := idx%12 == 5 || (adv && idx%3 == 0) // IPv4-mapped IPv6 entries
 	malformed := idx%15 == 7
 	mixed := r.Chance(1, 3)
 
 	base := c05RandAddr(r, bits)
+	if bits == 128 && idx%7 == 3 && r.Chance(2, 3) {
+		base = c05A{128, c05SparseV6(r)}
+	}
 	nf := r.PickInt(1, 1, 2, 3)
 	var clients []string
 	addClients := func(e c05E) {
 		for _, c := range c05Boundary(r, e) {
 			s := c.String()
+			if c.bits == 128 && r.Chance(1, 4) {
+				s = c05Text(r, c)
+			}
 			if c.bits == 32 && r.Chance(1, 6) {
 				s = c05Mapped(c) // IPv4-mapped client form = the IPv4 client
 			}
@@ -486,7 +592,7 @@ func c05Gen(r *vfRand, idx int, adv bool) c05In {
 	}
 	clients = c05Uniq(clients)
 	// bound the size of a case
-	for len(clients) > 24 {
+	for len(clients) > 30 {
 		k := r.Intn(len(clients))
 		clients = append(clients[:k], clients[k+1:]...)
 	}
